@@ -3,15 +3,17 @@
 copies SRCDIR/patchN.diff, demoN.rs (and the agent's notes) to /verif/seeded/PROP-N/ and writes meta.json"""
 import json,sys,shutil,os,re
 prop,n,src,needs,status,classes,confirm=sys.argv[1:8]
-cmd=sys.argv[8] if len(sys.argv)>8 else f"git -C /repo apply /verif/seeded/{prop}-{n}/patch.diff && /verif/bin/check {prop} quick; git -C /repo checkout -- ."
-d=f"/verif/seeded/{prop}-{n}"
+dest0=os.environ.get("DEST_N", n)
+cmd=sys.argv[8] if len(sys.argv)>8 else f"git -C /repo apply /verif/seeded/{prop}-{dest0}/patch.diff && /verif/bin/check {prop} quick; git -C /repo checkout -- ."
+dest=os.environ.get("DEST_N", n)
+d=f"/verif/seeded/{prop}-{dest}"
 os.makedirs(d,exist_ok=True)
 shutil.copy(f"{src}/patch{n}.diff",f"{d}/patch.diff")
 shutil.copy(f"{src}/demo{n}.rs",f"{d}/demo.rs")
 notes=open(f"{src}/notes.md").read() if os.path.exists(f"{src}/notes.md") else ""
 open(f"{d}/agent_notes.md","w").write(notes)
 files=sorted(set(re.findall(r'^\+\+\+ b/(\S+)',open(f"{d}/patch.diff").read(),re.M)))
-meta=dict(property=prop,seed_id=f"{prop}-{n}",files=files,needs_to_manifest=needs,
+meta=dict(property=prop,seed_id=f"{prop}-{dest}",files=files,needs_to_manifest=needs,
   produced_by="fresh sub-agent given only the property text and a scratch worktree",
   confirmed_by_me=confirm,
   what_i_ran=[f"tools/mutant_confirm.sh <scratch worktree> patch.diff demo.rs   (demo on clean tree, demo with patch, pinned suite with patch)",
